@@ -33,8 +33,10 @@ static void v_getfirst(void *c, res_t *r) { int *p = V->getfirst(V, true); rfmt(
 static void v_setlast(void *c, res_t *r) { int x = 6; rfmt(r, "%d", V->setlast(V, &x)); }
 static void v_toarray(void *c, res_t *r) { size_t n = 99; int *a = V->toarray(V, &n); rfmt(r, "%s n=%zu:", a ? "arr" : "NULL", n); for (size_t i = 0; a && i < n && i < 8; i++) radd(r, "%d,", a[i]); free(a); }
 static void v_clear(void *c, res_t *r) { V->clear(V); rfmt(r, "ok"); }
+static void v_reverse(void *c, res_t *r) { V->reverse(V); rfmt(r, "ok"); }
+static void v_resize1(void *c, res_t *r) { rfmt(r, "%d", V->resize(V, 1)); }
 static void v_lockedwalk(void *c, res_t *r) { V->lock(V); qvector_obj_t o; memset(&o, 0, sizeof o); rfmt(r, "w:"); int n = 0; while (V->getnext(V, &o, false) && n++ < 10) radd(r, "%d,", *(int *)o.data); V->unlock(V); }
-static cop_t V_OPS[] = {{"addlast", v_addlast}, {"addfirst", v_addfirst}, {"addat(1)", v_addat1}, {"removefirst", v_removefirst}, {"poplast", v_poplast}, {"getfirst(newmem)", v_getfirst}, {"setlast", v_setlast}, {"toarray", v_toarray}, {"clear", v_clear}, {"lock;walk;unlock", v_lockedwalk}};
+static cop_t V_OPS[] = {{"addlast", v_addlast}, {"addfirst", v_addfirst}, {"addat(1)", v_addat1}, {"removefirst", v_removefirst}, {"poplast", v_poplast}, {"getfirst(newmem)", v_getfirst}, {"setlast", v_setlast}, {"toarray", v_toarray}, {"clear", v_clear}, {"reverse", v_reverse}, {"resize(1)", v_resize1}, {"lock;walk;unlock", v_lockedwalk}};
 
 /* ------------------------------------------------------------ qlist */
 static void *l_make(int init) { qlist_t *l = qlist(QLIST_THREADSAFE); if (init == 1) { l->addlast(l, "a", 2); l->addlast(l, "b", 2); } if (init == 2) { l->addlast(l, "a", 2); l->setsize(l, 2); } return l; }
